@@ -12,3 +12,7 @@ mod c07;
 mod c08;
 #[cfg(kani)]
 mod c04;
+#[cfg(kani)]
+mod c14;
+#[cfg(kani)]
+mod c15;
